@@ -448,34 +448,85 @@ Definition tr_run (cfg : vconfig) (ops : list vop) : list fstep :=
   | None => []
   end.
 
-(* ---- D6: c17_fin_seq_ok is FALSE of the model.  1519 bytes are written: segment 101 (528 bytes) and the MTU
-   probe 102 (991 bytes) go out; both halves are dropped: our FIN is numbered 103 and sent (every segment has
-   been sent).  400 ms later the retransmission timer has expired: the probe (mtu_probe_max_retransmissions
-   = 0) is popped by split_tx_queue_into_segments and its 991 bytes are cut again into 102 (528 bytes) and
-   103 (463 bytes, Nagle off): an ST_DATA with a payload range never sent on its own carries the sequence
-   number of the FIN already on the wire.  The real code does the same (harness case in the report). *)
+(* ---- D6, first form (repaired in /repo 4d912d4: the retransmit-timer flag handed to pop_expired_mtu_probe
+   is off once our FIN is numbered).  1519 bytes are written: segment 101 (528 bytes) and the MTU probe 102
+   (991 bytes) go out; both halves are dropped: our FIN is numbered 103 and sent.  400 ms later the
+   retransmission timer has expired.  Before the repair the probe (mtu_probe_max_retransmissions = 0) was
+   popped by split_tx_queue_into_segments and cut again into 102 (528 bytes) and 103 (463 bytes): an ST_DATA
+   carrying the FIN's sequence number.  Now the poll retransmits 101 and every predicate holds. *)
 Definition d6_ops : list vop :=
   [VoWrite (repeat 7 1519); VoPoll []; VoDropReader; VoDropWriter; VoPoll []; VoSetNow 1400000000; VoPoll []].
 
-Definition d6_shape_b : bool :=
-  let tr := tr_run (tr_cfg false 0 1048576) d6_ops in
-  negb (c17_fin_seq_ok (tr_cfg false 0 1048576) tr) &&
-  C10_Pred.vconfig_ok (tr_cfg false 0 1048576) &&
-  (* nothing cuts the own-initiative prefix short: it is the whole trace *)
-  (Nat.eqb (length (own_prefix tr)) (length tr)) &&
-  (* the datagrams, in order: DATA 101, DATA 102 (probe), FIN 103, DATA 102 (528 bytes), DATA 103 (463 bytes) *)
+Definition d6_regression_b : bool :=
+  let cfg := tr_cfg false 0 1048576 in
+  let tr := tr_run cfg d6_ops in
+  c17_fin_seq_ok cfg tr && forallb (c17_fin_covers_data_ok cfg) tr &&
+  forallb (c17_fin_number_step_ok cfg) tr && forallb (c17_fin_after_data_noerr cfg) tr &&
   match map (fun p => (ch_type (fq_hdr p), pkt_seq p, fq_plen p)) (all_pkts tr) with
-  | [(ST_DATA, 101, 528); (ST_DATA, 102, 991); (ST_FIN, 103, 0); (ST_DATA, 102, 528); (ST_DATA, 103, 463)] => true
+  | [(ST_DATA, 101, 528); (ST_DATA, 102, 991); (ST_FIN, 103, 0); (ST_DATA, 101, 528)] => true
+  | _ => false
+  end.
+
+Theorem c17_fin_seq_regression : d6_regression_b = true.
+Proof. vm_compute. reflexivity. Qed.
+
+(* the same with the default options (Nagle on, one probe retransmission), where 463 bytes used to be lost:
+   the probe is retransmitted until the peer acknowledges it; the connection ends Closed, Ready(Ok), with
+   every byte sent *)
+Definition d6_loss_ops : list vop :=
+  [VoWrite (repeat 7 1519); VoPoll []; VoDeliver (tr_msg ST_STATE 1 101 []); VoPoll [];
+   VoDropReader; VoDropWriter; VoPoll [];
+   VoSetNow 1200000000; VoPoll []; VoSetNow 1600000000; VoPoll [];
+   VoDeliver (tr_msg ST_STATE 1 102 []); VoPoll [];
+   VoDeliver (tr_msg ST_STATE 1 103 []); VoPoll []].
+
+Definition d6_loss_regression_b : bool :=
+  let cfg := tr_cfg true 1 1048576 in
+  let tr := tr_run cfg d6_loss_ops in
+  c17_fin_seq_ok cfg tr && forallb (c17_fin_covers_data_ok cfg) tr && forallb (c17_fin_after_data_noerr cfg) tr &&
+  match map (fun p => (ch_type (fq_hdr p), pkt_seq p, fq_plen p)) (all_pkts tr) with
+  | [(ST_DATA, 101, 528); (ST_DATA, 102, 991); (ST_FIN, 103, 0); (ST_DATA, 102, 991); (ST_FIN, 103, 0);
+     (ST_DATA, 102, 991); (ST_FIN, 103, 0)] => true
   | _ => false
   end &&
-  (* every step predicate of C17 holds on that trace: none of them sees it *)
-  forallb (c17_fin_number_step_ok (tr_cfg false 0 1048576)) tr &&
-  forallb (c17_fin_after_data_noerr (tr_cfg false 0 1048576)) tr &&
-  (* nor does c17_fin_covers_data_ok: here every byte is sent, only the number is used twice (the variant
-     below loses bytes instead and is seen by that predicate only) *)
-  forallb (c17_fin_covers_data_ok (tr_cfg false 0 1048576)) tr &&
-  (* and the FINs carry one number *)
-  c17_fin_same_ok (tr_cfg false 0 1048576) tr.
+  match rev tr with
+  | st :: _ => match fs_result st, f_state (fs_post st) with
+               | FrPoll PollReadyOk _ _ _, Closed => true
+               | _, _ => false
+               end
+  | [] => false
+  end.
+
+Theorem c17_fin_covers_data_regression : d6_loss_regression_b = true.
+Proof. vm_compute. reflexivity. Qed.
+
+(* ---- D6, second form (NOT repaired by 4d912d4; the real code does the same, harness case in the report):
+   the other pop.  Segment 101 and the probe 102 are outstanding, our FIN 103 is on the wire; the path now
+   refuses datagrams above 548 bytes (EMSGSIZE); the retransmission timer retransmits 101 and rewinds
+   last_sent_seq_nr; the acknowledgement of 101 re-opens the new-data loop of send_tx_queue, which sends the
+   probe again: EMSGSIZE, pop_mtu_probe, restart, the 991 bytes are cut again (the search ends at 528):
+   102 (528 bytes) and 103 (463 bytes, Nagle off) - the FIN's number on an ST_DATA. *)
+Definition d6e_ops (lim : Z) : list vop :=
+  [VoWrite (repeat 7 1519); VoPoll []; VoDropReader; VoDropWriter; VoPoll []; VoSetLimit (Some lim);
+   VoSetNow 1400000000; VoPoll []; VoDeliver (tr_msg ST_STATE 1 101 []); VoPoll []].
+
+Definition d6_shape_b : bool :=
+  let cfg := tr_cfg false 1 1048576 in
+  let tr := tr_run cfg (d6e_ops 548) in
+  negb (c17_fin_seq_ok cfg tr) &&
+  C10_Pred.vconfig_ok cfg &&
+  (* nothing cuts the own-initiative prefix short: it is the whole trace *)
+  (Nat.eqb (length (own_prefix tr)) (length tr)) &&
+  match map (fun p => (ch_type (fq_hdr p), pkt_seq p, fq_plen p)) (all_pkts tr) with
+  | [(ST_DATA, 101, 528); (ST_DATA, 102, 991); (ST_FIN, 103, 0); (ST_DATA, 101, 528);
+     (ST_DATA, 102, 528); (ST_DATA, 103, 463)] => true
+  | _ => false
+  end &&
+  (* every step predicate of C17 holds on that trace: none of them sees it (every byte is sent, only the
+     number is used twice) *)
+  forallb (c17_fin_number_step_ok cfg) tr && forallb (c17_fin_after_data_noerr cfg) tr &&
+  forallb (c17_fin_covers_data_ok cfg) tr &&
+  c17_fin_same_ok cfg tr.
 
 Theorem c17_fin_seq_refuted_shape : d6_shape_b = true.
 Proof. vm_compute. reflexivity. Qed.
@@ -486,40 +537,33 @@ Theorem c17_fin_seq_ok_refuted :
     vsock_new (fixed_cc 4096) (fun _ _ => tt) cfg = Some s0 /\
     c17_fin_seq_ok cfg (ftrace (fixed_cc 4096) s0 ops) = false.
 Proof.
-  exists (tr_cfg false 0 1048576), d6_ops.
-  destruct (vsock_new (fixed_cc 4096) (fun _ _ => tt) (tr_cfg false 0 1048576)) as [s0|] eqn:E;
+  exists (tr_cfg false 1 1048576), (d6e_ops 548).
+  destruct (vsock_new (fixed_cc 4096) (fun _ _ => tt) (tr_cfg false 1 1048576)) as [s0|] eqn:E;
     [|vm_compute in E; discriminate].
   exists s0. split; [reflexivity|]. split; [reflexivity|].
-  pose proof c17_fin_seq_refuted_shape as H. unfold d6_shape_b, tr_run in H. rewrite E in H.
+  pose proof c17_fin_seq_refuted_shape as H. unfold d6_shape_b, tr_run in H. cbv zeta in H. rewrite E in H.
   repeat (apply andb_true_iff in H; destruct H as [H _]).
   apply negb_true_iff in H. exact H.
 Qed.
 
-(* ---- D6 with the default options (Nagle on, one probe retransmission): bytes are LOST.  The peer acknowledges
-   101; the probe 102 is retransmitted once, expires, is cut again; 102 (528 bytes) goes out with the FIN 103
-   behind it; the last 463 bytes are held back by Nagle, cut as segment 103 only after the acknowledgement of
-   102 - and never sent, because last_sent_seq_nr is already 103 (the FIN).  The peer's acknowledgement of
-   the FIN then removes that never-sent segment and the poll returns Ready(Ok): the peer has read 1056 bytes
-   and a clean end of stream, 463 written bytes never left.  c17_fin_seq_ok does not see it (no datagram
-   carries a wrong number); c17_fin_covers_data_ok does. *)
-Definition d6_loss_ops : list vop :=
-  [VoWrite (repeat 7 1519); VoPoll []; VoDeliver (tr_msg ST_STATE 1 101 []); VoPoll [];
-   VoDropReader; VoDropWriter; VoPoll [];
-   VoSetNow 1200000000; VoPoll []; VoSetNow 1600000000; VoPoll [];
-   VoDeliver (tr_msg ST_STATE 1 102 []); VoPoll [];
-   VoDeliver (tr_msg ST_STATE 1 103 []); VoPoll []].
+(* ---- the second form with the default options (Nagle on) and a path limit of 1000 bytes LOSES bytes: the
+   probe is cut again into 102 (760 bytes, a new probe) which goes out with the FIN 103 behind it; the last
+   231 bytes are cut as segment 103 only after the acknowledgement of 102 - and never sent, because
+   last_sent_seq_nr is already 103 (the FIN).  The peer's acknowledgement of the FIN removes that never-sent
+   segment and the poll returns Ready(Ok): 231 written bytes never left.  c17_fin_seq_ok does not see it
+   (no datagram carries a wrong number); c17_fin_covers_data_ok does. *)
+Definition d6e_loss_ops : list vop :=
+  d6e_ops 1000 ++ [VoDeliver (tr_msg ST_STATE 1 102 []); VoPoll []; VoDeliver (tr_msg ST_STATE 1 103 []); VoPoll []].
 
 Definition d6_loss_b : bool :=
   let cfg := tr_cfg true 1 1048576 in
-  let tr := tr_run cfg d6_loss_ops in
+  let tr := tr_run cfg d6e_loss_ops in
   negb (forallb (c17_fin_covers_data_ok cfg) tr) &&
   C10_Pred.vconfig_ok cfg &&
   c17_fin_seq_ok cfg tr && forallb (c17_fin_after_data_noerr cfg) tr &&
-  (* the bytes that went out as ST_DATA payload: 528 + 991 + 991 + 528; the last datagram of the trace is
-     the FIN; the connection ends Closed with Ready(Ok) *)
   match map (fun p => (ch_type (fq_hdr p), pkt_seq p, fq_plen p)) (all_pkts tr) with
-  | [(ST_DATA, 101, 528); (ST_DATA, 102, 991); (ST_FIN, 103, 0); (ST_DATA, 102, 991); (ST_FIN, 103, 0);
-     (ST_DATA, 102, 528); (ST_FIN, 103, 0)] => true
+  | [(ST_DATA, 101, 528); (ST_DATA, 102, 991); (ST_FIN, 103, 0); (ST_DATA, 101, 528);
+     (ST_DATA, 102, 760); (ST_FIN, 103, 0)] => true
   | _ => false
   end &&
   match rev tr with
@@ -528,9 +572,9 @@ Definition d6_loss_b : bool :=
       | FrPoll PollReadyOk _ _ _, Closed => true
       | _, _ => false
       end &&
-      (* before the FIN's acknowledgement: FinWait1, one segment of 463 bytes, never sent *)
+      (* before the FIN's acknowledgement: FinWait1, one segment of 231 bytes, never sent *)
       match f_state (fs_post st2), f_segs (fs_post st2) with
-      | FinWait1 103, [g] => (fg_size g =? 463) && (fg_sent_kind g =? 0) && (f_snd_una (fs_post st2) =? 103)
+      | FinWait1 103, [g] => (fg_size g =? 231) && (fg_sent_kind g =? 0) && (f_snd_una (fs_post st2) =? 103)
       | _, _ => false
       end
   | _ => false
@@ -545,7 +589,7 @@ Theorem c17_fin_covers_data_ok_refuted :
     vsock_new (fixed_cc 4096) (fun _ _ => tt) cfg = Some s0 /\
     forallb (c17_fin_covers_data_ok cfg) (ftrace (fixed_cc 4096) s0 ops) = false.
 Proof.
-  exists (tr_cfg true 1 1048576), d6_loss_ops.
+  exists (tr_cfg true 1 1048576), d6e_loss_ops.
   destruct (vsock_new (fixed_cc 4096) (fun _ _ => tt) (tr_cfg true 1 1048576)) as [s0|] eqn:E;
     [|vm_compute in E; discriminate].
   exists s0. split; [reflexivity|]. split; [reflexivity|].
